@@ -297,6 +297,31 @@ fn run_round(st: &Script, guards: Vec<GuardBox>, recount: &dyn Fn() -> (usize, V
         // `guards` is still alive here: unwinding drops it
         std::panic::panic_any(SCRIPT_PANIC);
     }
+    if round.fin == Fin::LatePanic {
+        // work on the guards in place, then panic: what is left in `slots` is dropped by the unwinding, in order
+        let mut slots: Vec<Option<GuardBox>> = guards.into_iter().map(Some).collect();
+        for i in 0..slots.len() {
+            match round.acts.get(i).copied().unwrap_or(Act::Rm) {
+                Act::Rm => {
+                    slots[i].as_mut().expect("not yet taken").remove();
+                }
+                Act::Keep => {}
+                Act::Set(v) => {
+                    slots[i].as_mut().expect("not yet taken").insert(v);
+                }
+                Act::Stash => {
+                    if block_key == Some(slots[i].as_ref().expect("not yet taken").key()) {
+                        st.borrow_mut().traces.push(format!("ev({})", pairs_str(&ids)));
+                        std::panic::panic_any(WOULD_BLOCK_PANIC);
+                    }
+                    let g = slots[i].take().expect("not yet taken");
+                    st.borrow_mut().stashed.push((ids[i].0, g));
+                }
+            }
+        }
+        st.borrow_mut().traces.push(format!("ev({})", pairs_str(&ids)));
+        std::panic::panic_any(SCRIPT_PANIC);
+    }
     for (i, mut g) in guards.into_iter().enumerate() {
         match round.acts.get(i).copied().unwrap_or(Act::Rm) {
             Act::Rm => {
